@@ -184,6 +184,7 @@ func pointerFree(t reflect.Type) bool {
 }
 
 func runC05(r *Run) {
+	c05ReadFileIntoField(r)
 	schemas := c05Schemas()
 	types := c05GoTypes()
 	nbuilt, nrej := 0, 0
